@@ -483,6 +483,7 @@ func main() {
 		"cases_per_family_before_dedup":  famList,
 		"reductions_evaluated_on_demand": onDemand,
 		"child_process_runs":             childRuns,
+		"contexts_not_judged":            ctxNotJudged,
 		"builders_compared":              nBuilders,
 		"options_compared":               nOptions,
 		"oracle_clauses_exercised":       counters,
